@@ -166,6 +166,7 @@ def load(R):
     R.external("fs.exists", returns=TBool, types={"arg0": TStr},
                ensures=["implies(arg0 in ghost('files'), result)", "implies(pkind(arg0) == 0 or pkind(arg0) == 1 or pkind(arg0) == 2, result == (arg0 in ghost('files')))"],
                notes="a link / version-file / temporary path is never a directory (path algebra); for other paths only 'a regular file exists' is known")
+    R.external("fs.isfile", returns=TBool, types={"arg0": TStr}, ensures=["result == (arg0 in ghost('files'))"])
     R.external("fs.read", returns=TStr, types={"arg0": TObj("nn:File")}, ensures=["result == ghost('files')[fpath(arg0)]"])
     R.external("uuid.uuid4", returns=TObj("nn:UUID"),
                ensures=["comp(py_str(result))",
@@ -192,6 +193,8 @@ def load(R):
     R.obj_method_hooks["open"] = lambda ex, recv, args, kwargs: do_open(ex, ufs["py_str"](recv.t), const_mode(ex, args, kwargs, 0))
     R.obj_method_hooks["exists"] = lambda ex, recv, args, kwargs: call_ext(ex, "fs.exists", VStr(ufs["py_str"](recv.t)))
     R.constructors["os.path.exists"] = lambda ex, args, kwargs: call_ext(ex, "fs.exists", VStr(as_str(ex, args[0])))
+    R.constructors["os.path.isfile"] = lambda ex, args, kwargs: call_ext(ex, "fs.isfile", VStr(as_str(ex, args[0])))
+    R.obj_method_hooks["is_file"] = lambda ex, recv, args, kwargs: call_ext(ex, "fs.isfile", VStr(ufs["py_str"](recv.t)))
     R.obj_method_hooks["write"] = lambda ex, recv, args, kwargs: call_ext(ex, "fs.write", recv, VStr(as_str(ex, args[0])))
     R.obj_method_hooks["read"] = lambda ex, recv, args, kwargs: call_ext(ex, "fs.read", recv)
     R.constructors["shutil.copyfileobj"] = lambda ex, args, kwargs: call_ext(ex, "fs.write", args[1], VStr(ufs["stream_str"](args[0].t)))
